@@ -391,6 +391,15 @@ func (m *Model) resultRule(rp, rs *string) (Outcome, string, MResult) {
 	if ff.IsSymlink {
 		class, why = Either, "symlink involved (documentation silent)"
 	}
+	if p != clean {
+		// a spelling that differs from its cleaned form: whether the raw or the
+		// cleaned path is handed to the file system is not documented, and the
+		// two differ when the raw spelling does not resolve (a detour through a
+		// directory that does not exist, a trailing "/." on a file)
+		if _, err := os.Stat(filepath.Join(m.Root) + "/" + p); err != nil {
+			class, why = Either, "raw spelling does not resolve although the cleaned path does"
+		}
+	}
 	if strings.HasPrefix(clean, "..") {
 		// e.g. "..foo": a regular name that merely starts with dots
 		class, why = Either, "name starting with .."
